@@ -231,6 +231,7 @@ RUN_PROFILE = {
     "max_wrappers": 1,
     "generators": ["BestPerDeme", "NBC", "NBCLocal", "Scripted"],
     "families": ["sphere", "rastrigin", "step", "linear", "abssum", "twobasin", "offset"],
+    "second_run": True,
 }
 
 
@@ -241,7 +242,10 @@ def check_twins(sc) -> tuple[list[Violation], Run, Run]:
     sc2["maximize"] = False
     r1 = Run(sc1, sign=-1.0)
     r1.run_all()
-    r2 = Run(sc2, sign=1.0)
+    # (optionally the second formulation is given the very same sprout-mechanism objects as the first)
+    # (not with the scripted user generator: it consumes its tape, i.e. it is stateful by construction)
+    shareable = sc["sprout"].get("generator", {}).get("kind") not in ("Scripted", "Queue")
+    r2 = Run(sc2, sign=1.0, reuse_from=(r1 if shareable and sc.get("second_run_seed") is not None and not r1.crash and r1.tree is not None else None))
     r2.run_all()
     vs: list[Violation] = []
     if r1.crash or r2.crash:
